@@ -2501,8 +2501,8 @@ func c05DataKey(data []byte, mode int) string {
 // measurements are per case), each under the three error-handling modes.
 func robC05Run(c *Ctx) {
 	r := c.R.Fork()
-	n := 1100
-	budget := 36 * time.Second
+	n := 900
+	budget := 22 * time.Second // the whole quick check has to stay below 60 s on a loaded machine
 	if c.Thorough {
 		n = 16000
 		budget = 7 * time.Minute
